@@ -75,20 +75,20 @@ theorem pb_setActive (s : St) (k : Nat) (hp : PB s) : PB (setActiveSheet s k) :=
 theorem maxOf_lt_of_mem (l : List Nat) (x : Nat) (h : x ∈ l) : x ≠ maxOf l + 1 := by
   have := le_maxOf l x h; omega
 
-theorem pb_new (s : St) (hp : PB s) (n : Name)
+theorem pb_new (s : St) (hp : PB s) (n : Name) (sid : Nat) (hsid : sid ≠ 0)
     (hf : ∀ sh ∈ s.sheets, fold sh.name ≠ fold n) :
     PB { s with
         count := s.count + 1
-        ctypes := s.ctypes ++ [maxOf (s.sheets.map (·.id)) + 1]
-        sheetMap := mapSet s.sheetMap n (maxOf (s.sheets.map (·.id)) + 1)
-        parts := partSet s.parts (maxOf (s.sheets.map (·.id)) + 1) ⟨false, 0⟩
-        rels := s.rels ++ [⟨maxOf (s.rels.map (·.rid)) + 1, maxOf (s.sheets.map (·.id)) + 1⟩]
-        sheets := s.sheets ++ [⟨n, maxOf (s.sheets.map (·.id)) + 1, maxOf (s.rels.map (·.rid)) + 1, .visible⟩] } := by
+        ctypes := s.ctypes ++ [sid]
+        sheetMap := mapSet s.sheetMap n sid
+        parts := partSet s.parts sid ⟨false, 0⟩
+        rels := s.rels ++ [⟨maxOf (s.rels.map (·.rid)) + 1, sid⟩]
+        sheets := s.sheets ++ [⟨n, sid, maxOf (s.rels.map (·.rid)) + 1, .visible⟩] } := by
   have hkeys : ∀ e ∈ s.sheetMap, fold e.1 ≠ fold n := by
     intro e he
     obtain ⟨sh, hsh, hn⟩ := hp.map_keys e he
     rw [← hn]; exact hf sh hsh
-  obtain ⟨hnew, hset⟩ := mapFind_mapSet_new s.sheetMap n (maxOf (s.sheets.map (·.id)) + 1) hkeys
+  obtain ⟨hnew, hset⟩ := mapFind_mapSet_new s.sheetMap n sid hkeys
   have hrid_mem : ∀ sh ∈ s.sheets, sh.rid ∈ s.rels.map (·.rid) := by
     intro sh hsh
     have := find?_some_mem _ _ _ (hp.rel_ok sh hsh)
@@ -131,7 +131,7 @@ theorem pb_new (s : St) (hp : PB s) (n : Name)
       rcases List.mem_append.mp hsh with h | h
       · exact hp.id_pos sh h
       · simp only [List.mem_singleton] at h
-        subst h; simp
+        subst h; exact hsid
     rid_nodup := by
       dsimp only
       simp only [List.map_append, List.map_cons, List.map_nil]
